@@ -140,6 +140,12 @@ struct Plan {
     strlit_facts: bool,
     #[serde(default)]
     outlines: Vec<Outline>,
+    /// functions whose tail `loop` leaves with `break <value>` (R11)
+    #[serde(default)]
+    break_to_return: Vec<String>,
+    /// source texts (whitespace-free) of places of type &str / String sliced with ranges (R22)
+    #[serde(default)]
+    str_places: Vec<String>,
     /// traits that get an explicit `: Sized` supertrait (R15; implied by their method signatures)
     #[serde(default)]
     trait_sized: Vec<String>,
@@ -844,6 +850,50 @@ impl<'ast, 'p> Visit<'ast> for Ctx<'p> {
         self.loop_anchor(&f.body);
         visit::visit_expr_for_loop(self, f);
     }
+    fn visit_expr_break(&mut self, b: &'ast syn::ExprBreak) {
+        if let (Some(_), true) = (&b.expr, self.in_verified_fn()) {
+            let fnk = self.cur_fn();
+            if self.plan.break_to_return.iter().any(|k| *k == fnk) {
+                let (s, _) = br(b.break_token.span());
+                self.replace(s, s + 5, vec![Part::Lit("return".into())]);
+                self.log(s, "R11", "break <value> (loop is the function's tail) -> return <value>");
+            }
+        }
+        visit::visit_expr_break(self, b);
+    }
+
+    fn visit_expr_index(&mut self, ix: &'ast syn::ExprIndex) {
+        // R22: `s[a..b]` on a place listed in plan.str_places -> vx_str_slice(s, a, b) / vx_str_slice_from(s, a)
+        if self.in_verified_fn() {
+            let (bs, be) = br(ix.expr.span());
+            let base = squash(self.text(bs, be));
+            if self.plan.str_places.iter().any(|v| *v == base) {
+                let mut idx: &syn::Expr = &ix.index;
+                while let syn::Expr::Paren(p) = idx {
+                    idx = &p.expr;
+                }
+                if let syn::Expr::Range(r) = idx {
+                    let (s, e) = br(ix.span());
+                    match (&r.start, &r.end) {
+                        (Some(a), Some(b)) => {
+                            let (as_, ae) = br(a.span());
+                            let (bs2, be2) = br(b.span());
+                            self.replace(s, e, vec![Part::Lit("*vx_str_slice(".into()), Part::Src(bs, be), Part::Lit(", ".into()), Part::Src(as_, ae), Part::Lit(", ".into()), Part::Src(bs2, be2), Part::Lit(")".into())]);
+                            self.log(s, "R22", "str[a..b] -> vx_str_slice(s, a, b)");
+                        }
+                        (Some(a), None) => {
+                            let (as_, ae) = br(a.span());
+                            self.replace(s, e, vec![Part::Lit("*vx_str_slice_from(".into()), Part::Src(bs, be), Part::Lit(", ".into()), Part::Src(as_, ae), Part::Lit(")".into())]);
+                            self.log(s, "R22", "str[a..] -> vx_str_slice_from(s, a)");
+                        }
+                        _ => {}
+                    }
+                }
+            }
+        }
+        visit::visit_expr_index(self, ix);
+    }
+
     fn visit_expr_while(&mut self, w: &'ast syn::ExprWhile) {
         self.loop_anchor(&w.body);
         visit::visit_expr_while(self, w);
